@@ -343,3 +343,7 @@ func (m *Map) Range(f func(key, value any) bool) {
 		}
 	}
 }
+
+func OnceValue[T any](f func() T) func() T { return sync.OnceValue(f) }
+
+func OnceValues[T1, T2 any](f func() (T1, T2)) func() (T1, T2) { return sync.OnceValues(f) }
